@@ -618,3 +618,110 @@ def _store(t):
 
 def desugar(tree):
     return ast.fix_missing_locations(Desugar().visit(tree))
+
+
+def expand_table_functions(tree):
+    """Module-level functions generated from a table:
+
+        TABLE = {"name_a": <expr a>, "name_b": <expr b>}
+        def factory(name, value):
+            def inner(msg): return helper(value, msg)
+            ...
+            return inner
+        for k, v in TABLE.items():
+            globals()[k] = factory(k, v)
+
+    is rewritten into the definitions it produces (`def name_a(msg): return helper(<expr a>, msg)`, ...), appended to the module, so that
+    every rule sees the same functions as in the hand-written form.  Only this exact shape is expanded: a dict literal with string keys,
+    a loop over its .items() whose body is the single globals() store, and a factory that returns one nested function."""
+    import copy
+    body = tree.body
+    tables = {s.targets[0].id: s.value for s in body if isinstance(s, ast.Assign) and len(s.targets) == 1 and isinstance(s.targets[0], ast.Name) and isinstance(s.value, ast.Dict)
+              and all(isinstance(k, ast.Constant) and isinstance(k.value, str) for k in s.value.keys)}
+    funcs = {s.name: s for s in body if isinstance(s, ast.FunctionDef)}
+    new = []
+    for st in body:
+        if not (isinstance(st, ast.For) and isinstance(st.target, ast.Tuple) and len(st.target.elts) == 2 and all(isinstance(e, ast.Name) for e in st.target.elts)
+                and isinstance(st.iter, ast.Call) and isinstance(st.iter.func, ast.Attribute) and st.iter.func.attr == "items" and isinstance(st.iter.func.value, ast.Name)
+                and st.iter.func.value.id in tables and not st.iter.args and len(st.body) == 1 and not st.orelse):
+            continue
+        kname, vname = st.target.elts[0].id, st.target.elts[1].id
+        a = st.body[0]
+        if not (isinstance(a, ast.Assign) and len(a.targets) == 1 and isinstance(a.targets[0], ast.Subscript) and isinstance(a.targets[0].value, ast.Call)
+                and isinstance(a.targets[0].value.func, ast.Name) and a.targets[0].value.func.id == "globals" and isinstance(a.targets[0].slice, ast.Name)
+                and a.targets[0].slice.id == kname and isinstance(a.value, ast.Call) and isinstance(a.value.func, ast.Name) and a.value.func.id in funcs
+                and all(isinstance(x, ast.Name) and x.id in (kname, vname) for x in a.value.args) and not a.value.keywords):
+            continue
+        fac = funcs[a.value.func.id]
+        inner = [x for x in fac.body if isinstance(x, ast.FunctionDef)]
+        rets = [x for x in fac.body if isinstance(x, ast.Return)]
+        if len(inner) != 1 or len(rets) != 1 or not (isinstance(rets[0].value, ast.Name) and rets[0].value.id == inner[0].name):
+            continue
+        fparams = [x.arg for x in fac.args.args]
+        if len(fparams) != len(a.value.args):
+            continue
+        table = tables[st.iter.func.value.id]
+        for k, v in zip(table.keys, table.values):
+            bind = {}
+            for p_, arg in zip(fparams, a.value.args):
+                bind[p_] = ast.Constant(value=k.value) if arg.id == kname else v
+            fn = copy.deepcopy(inner[0])
+            fn.name = k.value
+            shadow = {x.arg for x in fn.args.args}
+
+            class _Sub(ast.NodeTransformer):
+                def visit_Name(self, node):
+                    if isinstance(node.ctx, ast.Load) and node.id in bind and node.id not in shadow:
+                        return ast.copy_location(copy.deepcopy(bind[node.id]), node)
+                    return node
+            fn = _Sub().visit(fn)
+            ast.fix_missing_locations(fn)
+            new.append(fn)
+    if new:
+        have = {s.name for s in body if isinstance(s, ast.FunctionDef)}
+        tree.body = body + [f for f in new if f.name not in have]
+    # methods produced by a factory in a class body:  `__add__ = _operator("__add__", lambda a, b, p: (a + b) % p)`
+    for cls_ in [c for c in tree.body if isinstance(c, ast.ClassDef)]:
+        for i, st in enumerate(list(cls_.body)):
+            if not (isinstance(st, ast.Assign) and len(st.targets) == 1 and isinstance(st.targets[0], ast.Name) and isinstance(st.value, ast.Call)
+                    and isinstance(st.value.func, ast.Name) and st.value.func.id in funcs and not st.value.keywords):
+                continue
+            fac = funcs[st.value.func.id]
+            inner = [x for x in fac.body if isinstance(x, ast.FunctionDef)]
+            rets = [x for x in fac.body if isinstance(x, ast.Return)]
+            fparams = [x.arg for x in fac.args.args]
+            if len(inner) != 1 or len(rets) != 1 or not (isinstance(rets[0].value, ast.Name) and rets[0].value.id == inner[0].name) or len(fparams) != len(st.value.args):
+                continue
+            if not all(isinstance(a_, (ast.Constant, ast.Lambda, ast.Name)) for a_ in st.value.args):
+                continue
+            bind = dict(zip(fparams, st.value.args))
+            fn = copy.deepcopy(inner[0])
+            fn.name = st.targets[0].id
+            shadow = {x.arg for x in fn.args.args}
+
+            class _Sub2(ast.NodeTransformer):
+                def visit_Name(self, node):
+                    if isinstance(node.ctx, ast.Load) and node.id in bind and node.id not in shadow:
+                        return ast.copy_location(copy.deepcopy(bind[node.id]), node)
+                    return node
+
+                def visit_Call(self, node):
+                    self.generic_visit(node)
+                    f_ = node.func
+                    # (lambda a, b: body)(x, y) with plain parameters and side-effect-free arguments: the body with the arguments written in
+                    if isinstance(f_, ast.Lambda) and not node.keywords and not f_.args.vararg and not f_.args.kwarg and not f_.args.defaults \
+                            and len(f_.args.args) == len(node.args) and all(isinstance(a_, (ast.Name, ast.Attribute, ast.Constant)) for a_ in node.args):
+                        m_ = {p_.arg: a_ for p_, a_ in zip(f_.args.args, node.args)}
+
+                        class _Beta(ast.NodeTransformer):
+                            def visit_Name(self, n2):
+                                if isinstance(n2.ctx, ast.Load) and n2.id in m_:
+                                    return ast.copy_location(copy.deepcopy(m_[n2.id]), n2)
+                                return n2
+                        return ast.copy_location(_Beta().visit(copy.deepcopy(f_.body)), node)
+                    return node
+            fn = _Sub2().visit(fn)
+            ast.copy_location(fn, st)
+            ast.fix_missing_locations(fn)
+            cls_.body[cls_.body.index(st)] = fn
+    return tree
